@@ -145,6 +145,8 @@ impl TopicManagerDelegate {
     /// Delete the topic from the state.
     pub fn delete(&self, topic_name: &TopicName) {
         let mut state = self.state.write();
-        state.topics.remove(topic_name);
+        if let Some(topic) = state.topics.remove(topic_name) {
+            topic.mark_deleted();
+        }
     }
 }
